@@ -127,7 +127,7 @@ func (fc *fnCtx) anchorBP(st *state, kind string, ins ssa.Instruction, bind map[
 }
 
 func (fc *fnCtx) anchorNamed(st *state, kind, short, full string, ins ssa.Instruction, bind map[string]Val, after bool) {
-	fc.runAnchors(st, kind, func(arg string) bool { return arg == short || arg == full }, fc.ordOf(kind+":"+short, ins.Pos()), bind, after, "true", ins.Pos())
+	fc.runAnchors(st, kind, func(arg string) bool { return arg == "" || arg == short || arg == full }, fc.ordOf(kind+":"+short, ins.Pos()), bind, after, "true", ins.Pos())
 }
 
 // ordOf: 1-based ordinal of the site at pos among the sites of the same key, in source order.
@@ -607,7 +607,18 @@ func (fc *fnCtx) execBuiltin(st *state, ins ssa.Instruction, c *ssa.CallCommon, 
 			}
 		}
 		if target != "" {
-			fc.runAnchors(st, "append", func(arg string) bool { return arg == target }, 0, bind, false, "true", ins.Pos())
+			fc.runAnchors(st, "append", func(arg string) bool { return arg == target }, fc.ordOf("call:append", ins.Pos()), bind, false, "true", ins.Pos())
+		}
+		if u, ok := c.Args[0].(*ssa.UnOp); ok && u.Op == token.MUL {
+			if a, ok := u.X.(*ssa.Alloc); ok {
+				if src, shared := fc.aliasCell[a]; shared {
+					fc.aliasOf[s.T] = src
+				}
+			}
+		}
+		if src, shared := fc.aliasOf[s.T]; shared {
+			fc.assert(st, "frame", fmt.Sprintf("frame.append-into-a-shared-backing-array#%d", fc.site("frame.alias")), fmt.Sprintf("(>= (slen %s) (slen %s))", s.T, src.T),
+				"append to a reslice x[:k] overwrites x's backing array while k < len(x): a write to memory this function does not own", ins.Pos())
 		}
 		var r Val
 		if single {
@@ -617,10 +628,14 @@ func (fc *fnCtx) execBuiltin(st *state, ins ssa.Instruction, c *ssa.CallCommon, 
 			fc.assume(st, fmt.Sprintf("(= (slen %s) (+ (slen %s) (slen %s)))", r.T, s.T, t.T))
 			fc.assume(st, fmt.Sprintf("(forall ((q!i Int)) (=> (and (<= 0 q!i) (< q!i (slen %s))) (= (select (sarr %s) q!i) (select (sarr %s) q!i))))", s.T, r.T, s.T))
 			fc.assume(st, fmt.Sprintf("(forall ((q!i Int)) (=> (and (<= 0 q!i) (< q!i (slen %s))) (= (select (sarr %s) (+ (slen %s) q!i)) (select (sarr %s) q!i))))", t.T, r.T, s.T, t.T))
+			fc.assume(st, fmt.Sprintf("(forall ((q!i Int)) (! (=> (and (<= (slen %s) q!i) (< q!i (slen %s))) (= (select (sarr %s) q!i) (select (sarr %s) (- q!i (slen %s))))) :pattern ((select (sarr %s) q!i))))", s.T, r.T, r.T, t.T, s.T, r.T))
+		}
+		if src, shared := fc.aliasOf[s.T]; shared {
+			fc.aliasOf[r.T] = src // the result may still live in the shared array
 		}
 		if target != "" {
 			bind["$result"] = r
-			fc.runAnchors(st, "append", func(arg string) bool { return arg == target }, 0, bind, true, "true", ins.Pos())
+			fc.runAnchors(st, "append", func(arg string) bool { return arg == target }, fc.ordOf("call:append", ins.Pos()), bind, true, "true", ins.Pos())
 		}
 		return []Val{r}
 	case "copy":
